@@ -24,7 +24,8 @@ from .. import lib
 from ..lib import CheckResult, Violation
 
 PID = "C50"
-INVARIANTS = ["StepInv", "RrefAgree", "RankAgree", "SolveAgree", "KernelAgree", "GreedyAgree"]
+CHUNK = 6000
+INVARIANTS = ["PrepOK", "StepInv", "RrefAgree", "RankAgree", "SolveAgree", "KernelAgree", "GreedyAgree"]
 
 
 def _kernel_fn():
@@ -310,18 +311,24 @@ def run(tier, seed):
     traces += [t for _, t in pos] + [t for _, t in neg]
 
     t2 = time.time()
-    wd2 = lib.workdir(PID, "trace")
-    (wd2 / "traces.json").write_text(json.dumps(traces))
-    r = lib.run_tlc("Trace_GF2", lib.cfg(init="TInit", next_="TNext", constants={"NTRACES": len(traces)}, invariants=["TypeOK"]),
-                    wd2, env={"TRACE_FILE": str(wd2 / "traces.json")}, timeout=3000)
-    if r.invariant_violated:
-        raise lib.MachineryError("Trace_GF2 TypeOK violated (brute-force spaces malformed)\n" + r.out[-1500:])
-    lib.require_ok(r, "Trace_GF2")
-    verd = {t[1] - 1: t[2:] for t in r.tuples if t[0] == "V"}
-    fails = {}
-    for t in r.tuples:
-        if t[0] == "F":
-            fails.setdefault(t[1] - 1, []).append((t[2] - 1, t[3]))
+    # trace validation in chunks (one JSON file / one TLC run per CHUNK traces keeps the deserialised file small)
+    verd, fails, t_states, t_gen, t_wall = {}, {}, 0, 0, 0.0
+    for ci, lo in enumerate(range(0, len(traces), CHUNK)):
+        part = traces[lo:lo + CHUNK]
+        wd2 = lib.workdir(PID, f"trace{ci}")
+        (wd2 / "traces.json").write_text(json.dumps(part, separators=(",", ":")))
+        r = lib.run_tlc("Trace_GF2", lib.cfg(init="TInit", next_="TNext", constants={"NTRACES": len(part)}, invariants=["TypeOK"]),
+                        wd2, env={"TRACE_FILE": str(wd2 / "traces.json")}, timeout=3000)
+        if r.invariant_violated:
+            raise lib.MachineryError("Trace_GF2 TypeOK violated (brute-force spaces malformed)\n" + r.out[-1500:])
+        lib.require_ok(r, "Trace_GF2")
+        (wd2 / "traces.json").unlink()
+        t_states, t_gen, t_wall = t_states + r.distinct, t_gen + r.generated, t_wall + r.wall_s
+        for t in r.tuples:
+            if t[0] == "V":
+                verd[lo + t[1] - 1] = t[2:]
+            elif t[0] == "F":
+                fails.setdefault(lo + t[1] - 1, []).append((t[2] - 1, t[3]))
     if len(verd) != len(traces):
         raise lib.MachineryError(f"verdicts not total: {len(verd)} of {len(traces)}")
     nneg = 0
@@ -359,7 +366,7 @@ def run(tier, seed):
         if c["m"] == 3 and c["n"] == 3 and c["rank"] == 2 and c["A"] != c["rref"] and len(samples) in (2, 3):
             samples.append({"A": ms(c["A"]), "rref": ms(c["rref"]), "rank": c["rank"],
                             "unsolvable_rhs": ms([s["b"] for s in c["sols"] if not s["ok"]])})
-    cov = {"states": g.distinct + r.distinct, "transitions": g.generated + r.generated,
+    cov = {"states": g.distinct + t_states, "transitions": g.generated + t_gen,
            "traces_validated_against_impl": n_real, "evaluations": n_events,
            "distinct_nontrivial": len(nontriv),
            "rule": "every binary matrix of every shape 0..3 x 0..4" + (" and 4x4" if tier != "quick" else "") +
@@ -369,7 +376,7 @@ def run(tier, seed):
            "model": {"module": "GF2 / GF2Gen", "invariants": INVARIANTS, "states": g.distinct, "matrices": len(cases),
                      "exhaustive_shapes": [list(s) for s in shapes], "seeded_larger_matrices_in_model": len(extra)},
            "matrices_replayed": len(cases), "larger_matrices_trace_only": len(big),
-           "trace_events": n_events, "trace_states": r.distinct,
+           "trace_events": n_events, "trace_states": t_states,
            "square_regular": stats["square_regular"], "square_singular": stats["square_singular"],
            "solve_returned": stats["solve_returned"],
            "solve_raised": {k.split(":", 1)[1]: v for k, v in stats.items() if k.startswith("solve_raised:")},
@@ -378,7 +385,7 @@ def run(tier, seed):
            "indep_out_of_domain_answer_differs_from_reference": oodw, "kernel_calls": stats["kernel_calls"],
            "model_drift": drift, "input_mutated": stats["input_mutated"], "rref_inplace_differs": stats["rref_inplace_differs"],
            "rref_inplace_not_same_object": stats["rref_inplace_not_same_object"],
-           "phase_wall_s": {"model_check_and_generate": round(t1 - t0, 1), "implementation": round(t2 - t1, 1), "trace_validation": round(r.wall_s, 1)},
+           "phase_wall_s": {"model_check_and_generate": round(t1 - t0, 1), "implementation": round(t2 - t1, 1), "trace_validation": round(t_wall, 1)},
            "negative_controls_rejected": nneg, "negative_controls": [n for n, _ in neg],
            "positive_controls_accepted": len(pos)}
     return CheckResult(coverage=cov, violations=agg.violations(), assumptions=[
